@@ -70,6 +70,8 @@ def fill(rng, shape, kind):
     """Instantiate an operand shape (a recipe without values) with coefficients of one kind."""
     r = copy.deepcopy(shape)
     k = r['k']
+    if k == 'same':
+        return {'k': 'same', 'of': fill(rng, r['of'], kind)}
     if k == 'call0':
         return {'k': 'call0', 'of': fill(rng, r['of'], kind)}
     if k == 'list':
@@ -185,8 +187,12 @@ def gen_trace10(rng, tier='quick', crit_names=(), targets=()):
                 form = 'alg'
             d0 = {'alg': ai, 'kind': 'bin', 'op': name, 'form': form, 'shapes': shapes}
             descs.append(d0)
+            if rng.random() < 0.25 and shapes[0]['k'] not in ('num', 'call0', 'list'):
+                # the same operator and patterns with both operands being one object (x >> x next to x >> y)
+                descs.append({'alg': ai, 'kind': 'bin', 'op': name, 'form': form,
+                              'shapes': [shapes[0], {'k': 'same', 'of': shapes[0]}]})
             for kind, iname, idx in INNER.get(name, []):
-                if rng.random() < 0.5 and all(shapes[j]['k'] not in ('num', 'call0', 'list') for j in idx):
+                if rng.random() < 0.5 and all(shapes[j]['k'] not in ('num', 'call0', 'list', 'same') for j in idx):
                     descs.append({'alg': ai, 'kind': kind, 'op': iname, 'form': 'method',
                                   'shapes': [shapes[j] for j in idx]})
         elif u < 0.72:
@@ -249,8 +255,8 @@ def gen_trace10(rng, tier='quick', crit_names=(), targets=()):
             def nosym(sh):
                 if sh['k'] == 'sym':
                     return {'k': 'kv', 'keys': sh['keys'], 'n': len(sh['keys'])}
-                if sh['k'] == 'call0':
-                    return {'k': 'call0', 'of': nosym(sh['of'])}
+                if sh['k'] in ('call0', 'same'):
+                    return {'k': sh['k'], 'of': nosym(sh['of'])}
                 if sh['k'] == 'list':
                     return dict(sh, of=[nosym(x) for x in sh['of']])
                 return sh
